@@ -12,8 +12,8 @@ SHARDS = {"quick": 4, "thorough": 16}
 ANCHORS = [("qartod.py", "spike_test")]
 RULE = ("all series of length 1..4 (1..5 thorough) over {0, 1/2, 1, 2, 4, -2, missing} x all (suspect, fail) "
         "threshold pairs over {None, 0, 1/4, 1/2, 1, 2, 3} (quick: {None, 0, 1/2, 1, 3}) x both methods, then seeded "
-        "plateau/ramp/spike/double-spike series of length <= 40 with thresholds drawn from the spike magnitudes "
-        "actually present (so d == threshold occurs constantly), then unknown method names.  distinct = (method, "
+        "plateau/ramp/spike/double-spike series (also scaled by 2^-40 and 2^30) with thresholds drawn from the spike magnitudes "
+        "actually present (so d == threshold occurs constantly) or a 2^-20 relative hair below/above one, then unknown method names.  distinct = (method, "
         "length class, missing class, which thresholds are given / zero / fail<suspect, set of flags); trivial = all "
         "GOOD apart from the UNKNOWN end points.")
 ASSUMPTIONS = ["values are dyadic so the spike magnitude is exact in float64"]
@@ -68,13 +68,20 @@ def run(ctx) -> None:
     for _ in range(ctx.pick(1200, 6000)):
         n = rng.choice([3, 4, 5, 6, 8, 13, 40, 40, 101, ctx.pick(300, 1500)])
         x = gen.series(rng, n, pmiss=rng.choice([0, 0.1, 0.3]))
+        scale = rng.choice([1, 1, 1, 1, 2.0 ** -40, 2.0 ** 30])  # the comparison is exact at every magnitude
+        if scale != 1:
+            x = [None if v is None else v * scale for v in x]
         method = rng.choice(["average", "differential"])
         ds = sorted({models.spike_d(x[k - 1], x[k], x[k + 1], method) for k in range(1, n - 1)
                      if None not in (x[k - 1], x[k], x[k + 1])})
-        pool = [None, 0, *ds, *(d + 0.25 for d in ds[:2])]
+        # thresholds equal to a magnitude present, and a hair (2^-20 relative) below / above one: "exceeds" is exact
+        near = [d * f for d in ds if d for f in (1 - 2.0 ** -20, 1 + 2.0 ** -20)]
+        pool = [None, 0, *ds, *(d + 0.25 * scale for d in ds[:2]), *rng.sample(near, min(3, len(near)))]
         st, ft = rng.choice(pool), rng.choice(pool)
         if (st in ds and st) or (ft in ds and ft):
             ctx.count("spike.on_threshold_cases")
+        if st in near or ft in near:
+            ctx.count("spike.hairline_threshold_cases")
         one(ctx, x, st, ft, method, "rand", carrier=rng.choice(["arr", "list-none", "list-nan", "masked-finite"]))
 
     if ctx.shard == 0:
